@@ -264,3 +264,14 @@ class Model:
         if hit is None:
             raise Shape("no path matches %s (a loop?)" % (args,))
         return self.ev(hit, args)
+
+
+def model_value(f, args, ty="u32"):
+    """Value of a loop-free pure function on concrete arguments, as plain Python data (tuples -> lists): the fallback
+    for lookups that were rewritten as arithmetic (`split_radix`: trailing_zeros and a shift instead of a match)."""
+    v = Model(f, ty).value(list(args))
+    def plain(x):
+        if isinstance(x, tuple) and x and x[0] == "enum":
+            return [plain(y) for y in x[3]] if x[2] == "tuple" else (x[2], [plain(y) for y in x[3]])
+        return x
+    return plain(v)
